@@ -18,10 +18,14 @@
        NewSectionWriter(memfile, off, n) (n = -1: AtToWriter(memfile, off)), the call sequence, then
        AtToReader(memfile, roff) and the Reads.
        observation: [[per call as above ...], file content afterwards, [per Read as above ...]]
-       Domain: every byte stored lies below 2^20 (the file is a real byte slice); 0 <= len <= 2^20. *)
+       Domain: every byte stored lies below 2^20 (the file is a real byte slice); 0 <= len <= 2^20.
+    op iohelper.TwoSections    args [init, off1, n1, off2, n2, [[w,call],...], [wresp,...]]
+       NewSectionWriter(memfile, off1, n1) and NewSectionWriter(memfile, off2, n2) over the same file,
+       the calls interleaved (w = 0: the first writer, 1: the second).
+       observation: [[per call as above ...], file content afterwards] *)
 From Coq Require Import ZArith List Bool String.
 From Low Require Import Lib.MachInt Lib.BitSeq Lib.Val Model.SectionWriter Spec.SectionWriterSpec
-  Model.MemFile Model.SectionReader Spec.SectionReaderSpec.
+  Model.MemFile Model.SectionReader Spec.SectionReaderSpec Model.SectionPair Spec.SectionPairSpec.
 Import ListNotations.
 Open Scope string_scope.
 Open Scope Z_scope.
@@ -94,6 +98,25 @@ Definition dec_reads (lens sc : val) : option (list Z * list resp) :=
   | _, _ => None
   end.
 
+Definition dec_wcall (v : val) : option wcall :=
+  match v with
+  | VL [VZ w; c] => match dec_call c with Some c => Some (w, c) | None => None end
+  | _ => None
+  end.
+
+Definition dec_wcalls (wcs sc : val) : option (list wcall * list resp) :=
+  match wcs, sc with
+  | VL wcs, VL sc =>
+      match opt_all (map dec_wcall wcs), opt_all (map dec_resp sc) with
+      | Some wcs, Some sc =>
+          if forallb (fun wc => ((fst wc =? 0) || (fst wc =? 1)) && call_in_domain (snd wc)) wcs
+             && forallb resp_in_domain sc
+          then Some (wcs, sc) else None
+      | _, _ => None
+      end
+  | _, _ => None
+  end.
+
 (** every byte a call sequence stores lies below [file_limit] *)
 Definition outs_small (outs : list out) : bool :=
   forallb (fun r => forallb (fun u => fst u + zlen (snd u) <=? file_limit) (ucalls r)) outs.
@@ -105,6 +128,8 @@ Definition to_acall (c : call) : acall :=
   | CSeek o wh => ASeek o wh
   | CSize => ASize
   end.
+
+Definition to_wacall (wc : wcall) : Z * acall := (fst wc, to_acall (snd wc)).
 
 Definition ops_C18 : list opdef := [
   {| op_name := "iohelper.SectionWriter";
@@ -177,5 +202,28 @@ Definition ops_C18 : list opdef := [
                let f := spec_file_after init aouts in
                VL [VL (map enc_aout aouts); vzs f; VL (map enc_arout (spec_at_to_reader ro f rsc lens))]
            | _, _, _ => VBad end
+       | _ => VBad end) |};
+  {| op_name := "iohelper.TwoSections";
+     op_run := fun a => match a with
+       | [init; VZ o1; VZ n1; VZ o2; VZ n2; wcs; wsc] =>
+           match as_zs init, dec_wcalls wcs wsc with
+           | Some init, Some (wcs, wsc) =>
+               if is_bytes init && (zlen init <=? file_limit) &&
+                  section_in_domain o1 n1 && section_in_domain o2 n2
+               then
+                 let outs := run2 (NewSectionWriter o1 n1, NewSectionWriter o2 n2) wsc wcs in
+                 if outs_small outs
+                 then VL [VL (map enc_out outs); vzs (file_after init outs)]
+                 else VBad
+               else VBad
+           | _, _ => VBad end
+       | _ => VBad end;
+     op_spec := fun_spec (fun a => match a with
+       | [init; VZ o1; VZ n1; VZ o2; VZ n2; wcs; wsc] =>
+           match as_zs init, dec_wcalls wcs wsc with
+           | Some init, Some (wcs, wsc) =>
+               let aouts := spec_two_sections o1 n1 o2 n2 wsc (map to_wacall wcs) in
+               VL [VL (map enc_aout aouts); vzs (spec_file_after init aouts)]
+           | _, _ => VBad end
        | _ => VBad end) |}
 ].
